@@ -91,8 +91,13 @@ def impl_rp(c):
 def shared_config_cases():
     """two flows, one after the other, on a provider whose get_jwt_config() hands out ONE dict (a module-level constant) to every grant:
     each ID Token carries the nonce of its own authentication request"""
-    return [{"op": "shared_config", "first": f, "second": s2} for f in ("code", "code id_token", "id_token")
-            for s2 in ("code", "id_token", "id_token token", "code id_token", "code token", "code id_token token")]
+    out = [{"op": "shared_config", "first": f, "second": s2} for f in ("code", "code id_token", "id_token")
+           for s2 in ("code", "id_token", "id_token token", "code id_token", "code token", "code id_token token")]
+    # … the second authentication request carries no nonce (allowed for the code flow): its ID Token carries none either
+    out += [{"op": "shared_config", "first": f, "second": "code", "second_nonce": False} for f in ("code", "code id_token", "id_token")]
+    # … and a provider that names the audience as one string (fresh configuration per call)
+    out += [{"op": "shared_config", "first": "code", "second": s2, "aud_str": True, "fresh": True} for s2 in ("code", "id_token", "id_token token", "code id_token", "code id_token token")]
+    return out
 
 
 def impl_shared_config(c):
@@ -101,15 +106,16 @@ def impl_shared_config(c):
     from memserver import Req, Client
     ms.install_clock()
     store, srv, rp = ms.build(oidc=True)
-    store.jwt_shared = True
+    store.jwt_shared = not c.get("fresh")
+    store.aud_str = bool(c.get("aud_str"))
     store.clients["pub"] = Client("pub", "", ["https://c/cb"], "openid profile", ms.ALL_GRANT_TYPES, ms.ALL_RESPONSE_TYPES, "none")
     def claims(tok):
         p = tok.split(".")[1]
         return json.loads(base64.urlsafe_b64decode(p + "=" * (-len(p) % 4)))
     out = []
     for i, rt in enumerate((c["first"], c["second"])):
-        nonce = f"nonce-of-flow-{i + 1}"
-        form = dict(response_type=rt, client_id="pub", scope="openid profile", state="s", redirect_uri="https://c/cb", nonce=nonce)
+        nonce = f"nonce-of-flow-{i + 1}" if (i == 0 or c.get("second_nonce", True)) else None
+        form = dict(response_type=rt, client_id="pub", scope="openid profile", state="s", redirect_uri="https://c/cb", **({"nonce": nonce} if nonce else {}))
         r = srv.create_authorization_response(Req("POST", "https://as.example/authorize", form), grant_user=store.users[1])
         loc = dict(r.headers).get("Location", "")
         q = dict(parse_qsl(urlparse(loc).query + "&" + urlparse(loc).fragment, keep_blank_values=True))
